@@ -79,8 +79,8 @@ fn load_world(repo: &Path, work: &Path) -> World {
             // type extensions, custom root names incl. subscription, several interfaces per object,
             // descriptions (single-line and block), a deprecated field added by an extension
             "syn_ext__q",
-            "schema { query: RootQ subscription: Sub }\n\"A described scalar with a \\\"quote\\\" and caf\u{e9}\"\nscalar Money\ntype RootQ {\n  \"\"\"\n  block description\n  over two lines\n  \"\"\"\n  me: Person\n}\nextend type RootQ { extra(n: Int = 2): [Money!] }\ninterface Named { name: String }\ninterface Aged { age: Int }\ntype Person implements Named & Aged { name: String, age: Int, pet: Pet }\ntype Pet implements Named { name: String }\nextend type Person { nick: String @deprecated(reason: \"use name\") }\ntype Sub { tick: Int }\n",
-            "query Ext { me { name age nick pet { name } } extra(n: 3) }\n",
+            "schema { query: RootQ subscription: Sub }\n\"A described scalar with a \\\"quote\\\" and caf\u{e9}\"\nscalar Money\ntype RootQ {\n  \"\"\"\n  block description\n  over two lines\n  \"\"\"\n  me: Person\n}\nextend type RootQ { extra(n: Int = 2): [Money!] }\ninterface Named { name: String }\ninterface Aged { age: Int }\ntype Person implements Named & Aged { name: String, age: Int, pet: Pet }\ntype Pet implements Named { name: String }\nextend type Person { nick: String @deprecated(reason: \"use name\") }\nextend type Pet implements Aged { age: Int }\nextend type RootQ { oldest: Aged }\ntype Sub { tick: Int }\n",
+            "query Ext { me { name age nick pet { name } } extra(n: 3) oldest { __typename age ... on Pet { name } ... on Person { nick } } }\n",
         ),
         (
             "syn_deprecated__q",
@@ -89,7 +89,7 @@ fn load_world(repo: &Path, work: &Path) -> World {
         ),
         (
             "syn_shapes__q",
-            "schema { query: Query mutation: Mut }\nscalar Stamp\ntype Query { grid: [[Int!]!]!, maybe: [[Stamp]], thing(id: ID! = \"1\", f: Filter = {n: 1}): Thing }\ntype Mut { touch(at: Stamp!): Stamp }\ninterface Thing { id: ID! }\ntype A implements Thing { id: ID!, a: [A!] }\ntype B implements Thing { id: ID!, b: Float }\nunion AB = A | B\ninput Filter { n: Int = 3, tags: [String!] = [\"x\"], inner: Filter }\n",
+            "schema { query: Query mutation: Mut }\nscalar Stamp\ntype Query { grid: [[Int!]!]!, maybe: [[Stamp]], thing(id: ID! = \"1\", f: Filter = {n: 1}): Thing }\ntype Mut { touch(at: Stamp!): Stamp }\ninterface Thing { id: ID! }\ntype A implements Thing { id: ID!, a: [A!] }\ntype B implements Thing { id: ID!, b: Float }\nunion AB = A | B\ninput Filter { n: Int = 3, lim: Int! = 10, tags: [String!] = [\"x\"], strict: [Int!]! = [1], inner: Filter }\n",
             "query Shapes($f: Filter) { grid maybe thing(id: \"2\", f: $f) { __typename id ... on A { a { id } } ... on B { b } } }\n",
         ),
     ];
@@ -271,6 +271,21 @@ fn execute(plan: &Value, w: &World, cfg: &Cfg, slot: usize) -> Outcome {
         Some("text") => Some(OLD_TEXT.to_vec()),
         // longer than anything the endpoint serves: leftovers show if the file is not truncated
         Some("long-text") => Some(OLD_TEXT.repeat(7000)),
+        // what will be served, except for a member outside `data` (a file from an earlier run
+        // against the same server): the new reply must still replace it
+        Some("stale-same-data") => {
+            let now: Option<Value> = match &built.meaning {
+                Meaning::Complete { body, .. } => serde_json::from_slice(body).ok(),
+                _ => None,
+            };
+            Some(match now {
+                Some(Value::Object(mut m)) => {
+                    m.insert("extensions".into(), json!({"stale": true, "requestId": "from-an-earlier-run"}));
+                    serde_json::to_vec_pretty(&Value::Object(m)).unwrap()
+                }
+                _ => b"{\n  \"stale\": true\n}".to_vec(),
+            })
+        }
         Some("old-schema") => Some(b"{\n  \"data\": {\n    \"__schema\": {\n      \"queryType\": { \"name\": \"OldQuery\" },\n      \"types\": []\n    }\n  }\n}\n".to_vec()),
         _ => None,
     };
